@@ -5,9 +5,9 @@
        exists fuel', Vm.Model.execute fuel' (cprogram path p) entry = (out, vm_of res, _).
 
    PROVED for the fragment `ok_block` (Compile/StmtFrag.v): assignment, op-assignment (+ - * / %), print, assert,
-   expression statements, if / else-if / else, while, break, continue (through any nesting of ifs), from-loops
-   (named fresh counter, anonymous = hidden register counter, or colliding = an existing variable; bounds and step
-   arbitrary call-free expressions), return, over call-free expressions,
+   expression statements, if / else-if / else, while, break, continue (through any nesting of ifs), return, over call-free
+   expressions (from loops are proved in the second fragment only, since the loop head evaluates both bounds before the counter
+   receives its first value),
    at ANY nesting depth and program size: C01_module_correct_partial below is the full statement above on that
    fragment (same output lines; Done with an empty call stack, or the related run-time error after the same output
    prefix); and C01_module_fun_correct_partial for modules `definitions; main` whose functions are called in
@@ -21,16 +21,16 @@
    writes through captured cells, functions returned / stored / passed as arguments and called through variables -- with
    the statements assignment, modify, op-assignment (on a local or THROUGH a captured cell), print, assert, expression
    statement, if, if / else, else-if chains, while, from loops of every form (named fresh / colliding / anonymous counter,
-   `to` / `through`, with a step, calls in the lower bound, calls in the upper bound also when the counter is named: the
-   relation Cl of ClosRel.v tolerates the binding of the counter the VM makes before it evaluates the bound), break, continue
+   `to` / `through`, with a step, calls in both bounds; the compiled loop head is <lower>; store_fast L#start; <upper>;
+   store_fast L#end; load_fast L#start; store <counter>, so an upper bound may mention a variable with the counter's name),
+   break, continue
    (through any nesting of ifs), return with and without a value; expressions with calls anywhere (operands of arithmetic,
    unary minus, comparisons, && || !, `(a) or b`, `get a`, arguments) and `self(..)` (pinned for the programs of C15 / C12 in
    Props/C15.v, Props/C12.v).
    `in_fragment` = in_fragment1 || in_fragment2; fragment_correct holds on both.  On everything the generators of the checks
    produce, in_fragment2 holds wherever in_fragment1 does (measured, not a theorem).
    NOT proved: a step expression of a from loop that contains calls (the step is a call-free expression over locals and over
-   captured data variables that no assignment / colliding counter in the body shadows); an upper bound with calls that
-   MENTIONS the name of the loop's own counter (the known finding "upper bound evaluated after the counter start"); the VALUE of a function that returns no value on one path (such a
+   captured data variables that no assignment / colliding counter in the body shadows); the VALUE of a function that returns no value on one path (such a
    function may return data on other paths and be called in statement position; its result cannot be printed or used as an
    operand).
    Those are covered by the T1/T2/T3 correspondences on every run.
@@ -171,6 +171,12 @@ Check C01_nv_loops_program.
 Check C01_nv_bounds_program.
 (* a function that returns data on one path and no value on another, called in statement position *)
 Check C01_nv_maybe_value_program.
+(* both bounds are evaluated before the counter receives its first value: `n = 3  from 0 to n, n { print n }` (the counter is the
+   existing variable n, the upper bound mentions it) runs 0 1 2 on both sides, and is inside the proved fragment *)
+Example C01_nv_bound_mentions_counter :
+  let p := [SAssign [110%N] (EInt 3); SFrom (EInt 0) (EVar [110%N]) false None (Some [110%N]) true [SPrint (EVar [110%N])]] in
+  in_fragment2 nvp p = true /\ vm_out p 500 = (fst (run 500 p), Done) /\ snd (run 500 p) = RODone /\ fst (run 500 p) = [[48]; [49]; [50]]%N.
+Proof. vm_compute. repeat split. Qed.
 (* a named counter that has the name of a captured variable, with a call in the upper bound *)
 Check C01_nv_shadowing_counter_program.
 (* a write through a captured variable alone is inside (fragment 2) *)
@@ -184,7 +190,8 @@ Check C01_nv_stage4b. Check C01_nv_fun_theorem_applies. Check C01_nv_stage4c. Ch
 Check cblock_correct.
 Check stmt_sim.
 (* non-vacuity of the fragment theorems: concrete nested programs (else-if chain inside a while with block locals; break /
-   continue under nested ifs and a nested while; nested from-loops with step, break, continue) *)
+   continue under nested ifs and a nested while); the programs with from loops (stage3_from, stage5a, ...) are compared by
+   computation here and are inside the second fragment (C01_nv_in_fragment above) *)
 Check C01_nv_stage5a.
 Check C01_nv_stage2. Check C01_nv_stage3. Check C01_nv_stage3_from. Check C01_nv_theorem_applies. Check C01_nv_stage1_fail.
 
